@@ -530,7 +530,10 @@ Definition variant_parts (regs : list str) (v : variant) (operands : list operan
                | MNo => inl None
                | MAbort => inr tt
                end
-  | None => match operands with [] => inl (Some [base]) | _ => inl None end
+  | None => match operands with
+            | [] => inl (Some (base :: match suf with Some s => [s] | None => [] end))      (* fix D37: the suffix too *)
+            | _ => inl None
+            end
   end.
 
 (* variants are tried in definition order; the first that accepts is used; none: "no valid operands" *)
